@@ -94,6 +94,7 @@ type Machine struct {
 	// MergeAtRange: before forking over the iteration orders of a map, drop the state when an
 	// identical one (canonical key, effects) has already reached the same instruction in this Run.
 	MergeAtRange  bool
+	Base          *State             // when set, NewState starts from a copy of this state (package initialisers interpreted)
 	RangeCover    map[*ssa.Range]int // largest map each range instruction was interpreted on
 	rangeSeen     map[string]bool
 	AltFilter     func(st *State, v Val) Val     // applied to the alternative a fork takes
@@ -121,6 +122,12 @@ func (m *Machine) liveOf(fn *ssa.Function) *liveInfo {
 
 func (m *Machine) NewState(fn *ssa.Function, args []Val, ntapes int) *State {
 	st := &State{Heap: map[int]*HObj{}, Notes: map[string]bool{}}
+	if m.Base != nil {
+		// package-level variables as the interpreted package initialisers left them (lookup tables, ...)
+		st = m.Base.Clone()
+		st.Status = stRun
+		st.Frames = nil
+	}
 	for i := 0; i < ntapes; i++ {
 		st.Tapes = append(st.Tapes, &Tape{})
 	}
@@ -705,6 +712,11 @@ func (m *Machine) step(st *State) (forks []*State) {
 	case *ssa.Index:
 		base := m.get(st, fr, x.X)
 		iv := m.get(st, fr, x.Index)
+		if sv, isSym := iv.(SymV); isSym && m.Alpha != nil {
+			if b, single := m.Alpha.Single(sv.C); single {
+				iv = int64(b)
+			}
+		}
 		i, ok := iv.(int64)
 		if !ok {
 			st.stuck("index with %T", iv)
@@ -758,6 +770,11 @@ func (m *Machine) step(st *State) (forks []*State) {
 	case *ssa.IndexAddr:
 		base := m.get(st, fr, x.X)
 		iv := m.get(st, fr, x.Index)
+		if sv, isSym := iv.(SymV); isSym && m.Alpha != nil {
+			if b, single := m.Alpha.Single(sv.C); single {
+				iv = int64(b) // a table indexed by an input byte whose value is known
+			}
+		}
 		i, ok := iv.(int64)
 		if !ok {
 			st.stuck("indexaddr with %T", iv)
